@@ -91,7 +91,10 @@ Seed7 == Seed3 \o <<A("exec_free", "", "x2", "", "", 0), A("parse_exec", "c0", "
 \* a run that fails inside a handler, then texts that need a context at rest (a function declaration, a caller)
 Seed8 == Seed1 \o <<A("parse_exec", "c0", "x1", "", "", 79), A("run", "c0", "x1", "", "", 0), A("parse_exec", "c0", "x2", "", "", 20)>>
 Seed9 == Seed1 \o <<A("parse_exec", "c0", "x1", "", "", 80), A("run", "c0", "x1", "", "", 0), A("ctx_purge", "c0", "", "", "", 0), A("parse_exec", "c0", "x2", "", "", 13)>>
-Seeds == {<<>>, Seed1, Seed2, Seed3, Seed4, Seed5, Seed6, Seed7, Seed8, Seed9}
+\* a text that re-types an existing variable several times is rejected (67) or only compiled (69); a text using the variable follows
+Seed10 == Seed1 \o <<A("parse_exec", "c0", "x1", "", "", 67), A("parse_exec", "c0", "x1", "", "", 1), A("run", "c0", "x1", "", "", 0)>>
+Seed11 == Seed1 \o <<A("parse_exec", "c0", "x1", "", "", 69), A("parse_exec", "c0", "x2", "", "", 1), A("run", "c0", "x2", "", "", 0)>>
+Seeds == {<<>>, Seed1, Seed2, Seed3, Seed4, Seed5, Seed6, Seed7, Seed8, Seed9, Seed10, Seed11}
 
 Init == \E s \in Seeds : hist = s /\ m = Fold(M0, s) /\ nw = 0
 InitMC == \E s \in {<<>>, Seed2, Seed4} : hist = s /\ m = Fold(M0, s) /\ nw = 0
